@@ -334,6 +334,15 @@ def run(chk):
     before = p1._snapshot()
     r = P.call_method(FILE, "Circuit.fill_blackbox", p1, "inst", sc)
     chk.ob("C06.G.guards", "fill_blackbox::output mismatch", r[0] == "raise" and r[1] == "ValueError" and p1._snapshot() == before, file=FILE, func="Circuit.fill_blackbox", fact={"result": str(r)[:100]}, expect="ValueError, nothing changed")
+    # the child lacks a pin the blackbox has (its io is a strict subset): rejected as well
+    for label, bins, bouts in (("child lacks an output pin", ["x", "y"], ["c", "s", "extra_o"]), ("child lacks an input pin", ["x", "y", "extra_i"], ["c", "s"])):
+        bb_big = RefBlackBox("blk", bins, bouts)
+        p1 = parent()
+        p1.add_blackbox(bb_big, "inst", {"x": "A", "y": "B", "c": "T1"})
+        before = p1._snapshot()
+        r = P.call_method(FILE, "Circuit.fill_blackbox", p1, "inst", sc)
+        chk.ob("C06.G.guards", f"fill_blackbox::{label}", r[0] == "raise" and r[1] == "ValueError" and p1._snapshot() == before, file=FILE, func="Circuit.fill_blackbox", fact={"result": str(r)[:100], "unchanged": p1._snapshot() == before},
+               expect="ValueError, nothing changed (otherwise a pin of the filled instance stays behind as a bb_input / bb_output node)")
     r = P.call_method(FILE, "Circuit.fill_blackbox", parent(), "ghost", sc)
     chk.ob("C06.G.guards", "fill_blackbox::unknown instance", r[0] == "raise" and r[1] == "ValueError", file=FILE, func="Circuit.fill_blackbox", fact={"result": str(r)[:100]}, expect="ValueError")
 
